@@ -53,6 +53,24 @@ func txPerts(tx *transaction.Transaction) []pert {
 				}
 				return true
 			}},
+			// bits 30 and 31 of the index word double as the peg-in and issuance flags on the wire: when the flag is
+			// not set, the bit belongs to the index and must be covered like the rest of it (values only the API can hold)
+			pert{fmt.Sprintf("in%d.index-hi30", i), false, func(t *transaction.Transaction) bool {
+				in := t.Inputs[i]
+				if in.IsPegin || in.Index == 0xffffffff || in.Index^0x40000000 == 0xffffffff {
+					return false
+				}
+				in.Index ^= 0x40000000
+				return true
+			}},
+			pert{fmt.Sprintf("in%d.index-hi31", i), false, func(t *transaction.Transaction) bool {
+				in := t.Inputs[i]
+				if in.Issuance != nil || in.Index == 0xffffffff || in.Index^0x80000000 == 0xffffffff {
+					return false
+				}
+				in.Index ^= 0x80000000
+				return true
+			}},
 			pert{fmt.Sprintf("in%d.pegin", i), false, func(t *transaction.Transaction) bool {
 				in := t.Inputs[i]
 				if in.Index == 0xffffffff || (in.Index == 0x3fffffff && in.Issuance != nil) {
@@ -138,7 +156,10 @@ func txPerts(tx *transaction.Transaction) []pert {
 			pert{fmt.Sprintf("out%d.value", i), false, func(t *transaction.Transaction) bool { t.Outputs[i].Value = altValue(t.Outputs[i].Value); return true }},
 			pert{fmt.Sprintf("out%d.nonce", i), false, func(t *transaction.Transaction) bool { t.Outputs[i].Nonce = altNonce(t.Outputs[i].Nonce); return true }},
 			pert{fmt.Sprintf("out%d.script", i), false, func(t *transaction.Transaction) bool { t.Outputs[i].Script = grow(t.Outputs[i].Script); return true }},
-			pert{fmt.Sprintf("out%d.rangeproof", i), true, func(t *transaction.Transaction) bool { t.Outputs[i].RangeProof = grow(t.Outputs[i].RangeProof); return true }},
+			pert{fmt.Sprintf("out%d.rangeproof", i), true, func(t *transaction.Transaction) bool {
+				t.Outputs[i].RangeProof = grow(t.Outputs[i].RangeProof)
+				return true
+			}},
 			pert{fmt.Sprintf("out%d.surjectionproof", i), true, func(t *transaction.Transaction) bool {
 				t.Outputs[i].SurjectionProof = grow(t.Outputs[i].SurjectionProof)
 				return true
